@@ -329,6 +329,14 @@ def fam_orphans(rng, nperm):
     ops += [{"op": "craft", "s": "N3", "t": "c21", "l": 2, "r": 2, "w": 2, "id": 23}, D("N2", 23), D("N2", 2),
             {"op": "tick", "n": "N2", "times": 3}, D("N1", 23), {"op": "compare", "n": "N1", "m": "N2"}]
     out.append(("twomany", 2, ops))
+    if nperm > 100:
+        # the real buffer bound: 500 orphans are parked, the 501st is refused; after the parent arrives all 500 are admitted
+        ops = [G(), {"op": "load", "m": "N2", "n": "N1"}, P("N1", "t1", 2)]
+        for i in range(1, 502):
+            ops.append({"op": "craft", "s": "N3", "t": "c%d" % i, "l": 2, "r": 2, "w": 2, "id": 2 + i})
+            ops.append(D("N2", 2 + i))
+        ops += [D("N2", 2), {"op": "tick", "n": "N2", "times": 505}]
+        out.append(("twobig", 2, ops))
     # an invalid vertex (overdraft sealed by an untrusted node) parked and retried must not be built on
     ops = [G(), {"op": "load", "m": "N2", "n": "N1"}, P("N1", "t1", 2),
            {"op": "craft", "s": "N3", "t": "t6", "l": 2, "r": 2, "w": 2, "id": 3},
@@ -560,6 +568,9 @@ SHAPES["drain"] = (["N1"], ["N1", "N2", "GR", "A", "B"], ["N2"], "drain")
 SHAPES["tworules"] = (["N1", "N2"], ["N1", "N2", "N3", "GR", "A", "B"], ["N3"], "rules")
 TRX["many"] = [{"id": "c%d" % i, "iss": "A", "rcv": "B", "amt": 0, "data": True} for i in range(1, 25)] + \
               [{"id": "t1", "iss": "GR", "rcv": "A", "amt": 6, "data": False}]
+TRX["big"] = [{"id": "c%d" % i, "iss": "A", "rcv": "B", "amt": 0, "data": True} for i in range(1, 503)] + \
+             [{"id": "t1", "iss": "GR", "rcv": "A", "amt": 6, "data": False}]
+SHAPES["twobig"] = (["N1", "N2"], ["N1", "N2", "N3", "GR", "A", "B"], ["N3"], "big")
 SHAPES["twomany"] = (["N1", "N2"], ["N1", "N2", "N3", "GR", "A", "B"], ["N3"], "many")
 
 # known findings: (finding id, property, modulo invariant replaces strict invariant, witness family index)
@@ -597,8 +608,9 @@ def package(prop, raw, rng, heavy=True):
     for i, (shape, trunc, ops, origin) in enumerate(raw):
         unit = UNITS[rng.randrange(len(UNITS))]
         cfg = cfg_of(shape, trunc, unit)
+        big = shape == "twobig"
         out.append({"id": "%s-%d" % (prop, i), "origin": origin, "cfg": cfg,
-                    "ops": enrich(rng, cfg, ops, heavy=heavy)})
+                    "ops": enrich(rng, cfg, ops, density=0.0 if big else 0.5, heavy=heavy and not big)})
     return out
 
 
